@@ -19,6 +19,18 @@
 //!                    suspicions and ping acks). The oracle is only this: the Lamport time and the
 //!                    recorded incarnation of a member that one thread reads (each read under the
 //!                    manager's own lock) never decrease from one read of that thread to its next.
+//!  conv-local      : delivery interleaved with local events. One replica X (an LWW state or a
+//!                    manager) runs a short program of merged batches (1-4 reports in arbitrary
+//!                    order - newest first, last or in the middle -, Syncs whose sender clock is
+//!                    below, at or above their timestamps) and local suspect / fail / refute /
+//!                    mark_healthy events (through the manager: Suspect, Alive, PingAck, suspicion
+//!                    expiry, Syncs sent by an observed member, add_peer). Everything X was
+//!                    delivered and every record X held after one of its own steps (what it would
+//!                    gossip) form the pool of updates X has received. Two clauses, both on
+//!                    (health, incarnation) views only: (repetition) re-delivering any part of the
+//!                    pool to X, in any order and grouping, leaves X's view as it was; (replica) a
+//!                    fresh replica Y without local events that is delivered the whole pool in any
+//!                    order / grouping / repetition ends with X's view.
 
 use common::*;
 use serde_json::{json, Value};
@@ -832,6 +844,268 @@ fn concurrent_case(case_seed: u64, r: &mut Report, steps: usize) -> bool {
     false
 }
 
+/// One replica of the conv-local part: the LWW state itself or a manager around it.
+enum Replica {
+    State(LWWMembershipState),
+    Mgr(GossipMembershipManager),
+}
+
+impl Replica {
+    fn new(rng_mgr: bool, name: &str, fast_expiry: bool) -> Replica {
+        if rng_mgr {
+            let t = h_chain::CaptureTransport::new(name, &["obs".to_string()]);
+            let cfg = if fast_expiry { GossipConfig { suspicion_timeout_ms: 1, ..GossipConfig::default() } } else { GossipConfig::default() };
+            let m = GossipMembershipManager::new(name.to_string(), cfg, t);
+            m.add_peer("obs".into());
+            Replica::Mgr(m)
+        } else {
+            Replica::State(LWWMembershipState::new())
+        }
+    }
+    /// the records of the observed members, sorted by member
+    fn member_states(&self) -> Vec<GossipNodeState> {
+        let mut v: Vec<GossipNodeState> = match self {
+            Replica::State(s) => s.all_states().filter(|s| s.node_id.starts_with('m')).cloned().collect(),
+            Replica::Mgr(m) => m.all_states().into_iter().filter(|s| s.node_id.starts_with('m')).collect(),
+        };
+        v.sort_by(|a, b| a.node_id.cmp(&b.node_id));
+        v
+    }
+    fn view(&self) -> View {
+        self.member_states().into_iter().map(|s| (s.node_id.clone(), (hname(s.health).to_string(), s.incarnation))).collect()
+    }
+    fn deliver(&mut self, batch: Vec<GossipNodeState>, sender: &str, sender_time: u64) {
+        match self {
+            Replica::State(s) => {
+                s.merge(&batch);
+            }
+            Replica::Mgr(m) => m.handle_gossip(GossipMessage::Sync { sender: sender.to_string(), states: batch, sender_time }),
+        }
+    }
+    /// deliver `items` in this order, cut into groups at random, from the outside observer
+    fn deliver_grouped(&mut self, items: &[GossipNodeState], rng: &mut Rng, ts_span: u64) -> Vec<usize> {
+        let mut groups = Vec::new();
+        let mut batch: Vec<GossipNodeState> = Vec::new();
+        for (pos, s) in items.iter().enumerate() {
+            batch.push(s.clone());
+            if pos + 1 == items.len() || rng.bool() {
+                groups.push(batch.len());
+                self.deliver(std::mem::take(&mut batch), "obs", rng.below(ts_span as usize + 5) as u64);
+            }
+        }
+        groups
+    }
+}
+
+fn st_str(s: &GossipNodeState) -> String {
+    format!("{}:{}@inc{},ts{}", s.node_id, hname(s.health), s.incarnation, s.timestamp)
+}
+fn sts_str(v: &[GossipNodeState]) -> String {
+    format!("[{}]", v.iter().map(st_str).collect::<Vec<_>>().join(", "))
+}
+
+/// Delivery interleaved with local events (see the header): repetition and replica clauses.
+fn conv_local(case_seed: u64, r: &mut Report, deep: bool) {
+    // manager handlers may spawn tasks: run inside the thread's runtime context
+    RT.with(|rt| {
+        let _ctx = rt.enter();
+        conv_local_program(case_seed, r, deep)
+    })
+}
+
+fn conv_local_program(case_seed: u64, r: &mut Report, deep: bool) {
+    let mut rng = Rng::new(case_seed);
+    let members = 2 + rng.below(3) as u8;
+    let use_mgr = rng.chance(1, 3);
+    let fast_expiry = use_mgr && rng.chance(1, 4);
+    // small timestamp ranges (ties, timestamps at and below the receiver's clock) and wider ones
+    // (reports far ahead of the receiver's clock)
+    let ts_span: u64 = *rng.pick(&[4u64, 12, 40]);
+    let mut x = Replica::new(use_mgr, "local", fast_expiry);
+    // everything X has received: reports delivered to it and the records it held after its own steps
+    let mut pool: Vec<GossipNodeState> = Vec::new();
+    let mut last_snap: BTreeMap<String, GossipNodeState> = BTreeMap::new();
+    let mut trace: Vec<String> = Vec::new();
+    let mut local_applied = 0u64;
+    let mut expiries = 0u32;
+    let replay = json!({"part": "conv-local", "case_seed": case_seed, "deep": deep});
+    let steps = 3 + rng.below(if deep { 28 } else { 10 });
+    for step in 0..=steps {
+        let m = rng.below(members as usize) as u8;
+        let name = mname(m);
+        let before = x.member_states();
+        let recorded_inc = before.iter().find(|s| s.node_id == name).map(|s| s.incarnation);
+        let mut local = false;
+        // the last step is always a repetition check
+        let op = if step == steps { 5 } else { rng.weighted(&[38, 14, 10, 10, 14, 14]) };
+        match op {
+            0 => {
+                let k = 1 + rng.below(4);
+                let batch: Vec<GossipNodeState> = gen_updates(&mut rng, members, k, true)
+                    .iter()
+                    .map(|u| to_state(&Upd { ts: 1 + rng.below(ts_span as usize) as u64, inc: u.inc.min(2), ..*u }))
+                    .collect();
+                if batch.len() >= 2 {
+                    r.count("local_batches_of_two_or_more_reports", 1);
+                    let newest = batch.iter().map(|s| s.timestamp).max().unwrap_or(0);
+                    if batch[0].timestamp < newest {
+                        r.count("local_batches_whose_newest_report_is_not_the_first", 1);
+                    }
+                }
+                // through the manager a third of the Syncs is sent by an observed member: handle_sync
+                // then also marks that member alive, a local event whose result enters the pool below
+                let sender = if use_mgr && rng.chance(1, 3) { mname(rng.below(members as usize) as u8) } else { "obs".to_string() };
+                let sender_time = rng.below(ts_span as usize + 5) as u64;
+                if sender != "obs" {
+                    r.count("local_syncs_sent_by_an_observed_member", 1);
+                }
+                trace.push(format!("deliver {}{}", sts_str(&batch), if use_mgr { format!(" from {} at sender time {}", sender, sender_time) } else { String::new() }));
+                pool.extend(batch.iter().cloned());
+                x.deliver(batch, &sender, sender_time);
+            }
+            1 => {
+                let inc = match recorded_inc {
+                    Some(i) if !rng.chance(1, 5) => i,
+                    _ => rng.below(4) as u64,
+                };
+                trace.push(format!("suspect {} inc {}", name, inc));
+                local = true;
+                match &mut x {
+                    Replica::State(s) => {
+                        s.suspect(&name, inc);
+                    }
+                    Replica::Mgr(g) => g.handle_gossip(GossipMessage::Suspect { reporter: "obs".into(), suspect: name.clone(), incarnation: inc }),
+                }
+            }
+            2 => {
+                local = true;
+                match &mut x {
+                    Replica::State(s) => {
+                        trace.push(format!("fail {}", name));
+                        s.fail(&name);
+                    }
+                    Replica::Mgr(g) => {
+                        if fast_expiry && expiries < 2 {
+                            // a gossip round expires the pending suspicions (1 ms timeout): members fail
+                            expiries += 1;
+                            trace.push("gossip_round (suspicion timeout 1 ms)".to_string());
+                            std::thread::sleep(std::time::Duration::from_millis(2));
+                            let _ = block_on(g.gossip_round());
+                        } else {
+                            trace.push(format!("add_peer {}", name));
+                            g.add_peer(name.clone());
+                        }
+                    }
+                }
+            }
+            3 => {
+                let inc = recorded_inc.unwrap_or(0) + rng.below(3) as u64;
+                trace.push(format!("alive/refute {} inc {}", name, inc));
+                local = true;
+                match &mut x {
+                    Replica::State(s) => {
+                        s.refute(&name, inc);
+                    }
+                    Replica::Mgr(g) => g.handle_gossip(GossipMessage::Alive { node_id: name.clone(), incarnation: inc }),
+                }
+            }
+            4 => {
+                trace.push(format!("mark_healthy {}", name));
+                local = true;
+                match &mut x {
+                    Replica::State(s) => {
+                        s.mark_healthy(&name);
+                    }
+                    Replica::Mgr(g) => g.handle_gossip(GossipMessage::PingAck { origin: "obs".into(), target: name.clone(), sequence: step as u64, success: true }),
+                }
+            }
+            _ => {
+                // repetition: any part of what X has received arrives again, in any order and grouping
+                if !pool.is_empty() {
+                    let mut items: Vec<GossipNodeState> = pool.iter().filter(|_| rng.bool()).cloned().collect();
+                    for _ in 0..1 + rng.below(3) {
+                        items.push(rng.pick(&pool).clone());
+                    }
+                    rng.shuffle(&mut items);
+                    let view_before = x.view();
+                    let groups = x.deliver_grouped(&items, &mut rng, ts_span);
+                    let view_after = x.view();
+                    r.count("local_redeliveries_checked", 1);
+                    if local_applied > 0 {
+                        r.count("local_redeliveries_checked_after_a_local_event", 1);
+                    }
+                    trace.push(format!("re-deliver {} in groups of {:?}", sts_str(&items), groups));
+                    if view_after != view_before {
+                        r.violation(
+                            if local_applied > 0 { "convergence:redelivery-after-local-event-changed-the-view" } else { "convergence:redelivery-changed-the-view" },
+                            format!(
+                                "re-delivery of reports the replica had already received changed its view from {:?} to {:?}; records before {}; steps {:?} (mgr={})",
+                                view_before,
+                                view_after,
+                                sts_str(&before),
+                                trace,
+                                use_mgr
+                            ),
+                            replay.clone(),
+                        );
+                        return;
+                    }
+                }
+            }
+        }
+        // what X holds after its step is what it would gossip: part of what X has received
+        let after = x.member_states();
+        if local && after != before {
+            local_applied += 1;
+            r.count("local_events_applied", 1);
+        }
+        for s in after {
+            if last_snap.get(&s.node_id) != Some(&s) {
+                pool.push(s.clone());
+                last_snap.insert(s.node_id.clone(), s);
+            }
+        }
+    }
+    // replica: the same updates, no local events, any order / grouping / repetition
+    let xview = x.view();
+    if !pool.is_empty() {
+        for _ in 0..if deep { 6 } else { 3 } {
+            let mut items = pool.clone();
+            for _ in 0..rng.below(4) {
+                items.push(rng.pick(&pool).clone());
+            }
+            rng.shuffle(&mut items);
+            let y_mgr = rng.chance(1, 4);
+            let mut y = Replica::new(y_mgr, "other", false);
+            let groups = y.deliver_grouped(&items, &mut rng, ts_span);
+            let yview = y.view();
+            r.count("local_replica_comparisons", 1);
+            if yview != xview {
+                r.violation(
+                    if local_applied > 0 { "convergence:replica-with-same-updates-differs-after-local-events" } else { "convergence:order-dependent" },
+                    format!(
+                        "replica X ran {:?} and holds {:?} (records {}); replica Y (mgr={}) was delivered everything X received and held, {} in groups of {:?}, and holds {:?} (X mgr={})",
+                        trace,
+                        xview,
+                        sts_str(&x.member_states()),
+                        y_mgr,
+                        sts_str(&items),
+                        groups,
+                        yview,
+                        use_mgr
+                    ),
+                    replay.clone(),
+                );
+                return;
+            }
+        }
+    }
+    r.eval(hash_str(&trace.join(";")), local_applied > 0 && !pool.is_empty());
+    if r.want_sample() && local_applied > 0 {
+        r.sample(json!({"part": "conv-local", "manager": use_mgr, "steps": trace.iter().take(10).collect::<Vec<_>>(), "view": format!("{:?}", xview), "pool_size": pool.len()}));
+    }
+}
+
 fn main() {
     let args = Args::parse();
     let started = Instant::now();
@@ -839,6 +1113,7 @@ fn main() {
     let mut total = Report::new();
     total.max_samples = 12;
 
+    let only_local = args.extra.get("only").map(|s| s.as_str()) == Some("conv-local");
     if let Some(p) = &args.replay {
         let v: Value = serde_json::from_str(&std::fs::read_to_string(p).expect("replay file")).expect("json");
         let rp = &v["replay"];
@@ -846,6 +1121,7 @@ fn main() {
             "conv-random" => conv_random(rp["case_seed"].as_u64().unwrap(), &mut total),
             "monotone" => monotone(rp["case_seed"].as_u64().unwrap(), &mut total),
             "hlc" => hlc_case(rp["case_seed"].as_u64().unwrap(), &mut total),
+            "conv-local" => conv_local(rp["case_seed"].as_u64().unwrap(), &mut total, rp["deep"].as_bool().unwrap_or(false)),
             "concurrent" => {
                 // the schedule is the machine's: repeat the workload a bounded number of times
                 let steps = rp["steps"].as_u64().unwrap_or(250) as usize;
@@ -875,6 +1151,13 @@ fn main() {
                 check_multiset_exhaustive(&ups, &mut total, "conv-exhaustive");
             }
         }
+    } else if only_local {
+        // development aid (`--only conv-local`): the conv-local part alone at the tier's budgets
+        let n_local = args.by_tier(120_000u64, 3_000_000u64);
+        let deep = !args.quick();
+        let rep = par_cases(args.threads, args.seed ^ 0xE5, n_local, args.budget(60, 600), move |_i, s, r| conv_local(s, r, deep));
+        total.count("local_programs", rep.evaluations);
+        total.merge(rep);
     } else {
         // ---- exhaustive part: every multiset of size <= N over the small universe
         let uni = Arc::new(universe(2, 3, 2, 3));
@@ -925,6 +1208,12 @@ fn main() {
         let rep = par_cases(args.threads, args.seed ^ 0xC7, n_hlc, args.budget(60, 600), |_i, s, r| hlc_case(s, r));
         total.count("hlc_programs", rep.evaluations);
         total.merge(rep);
+        // ---- delivery interleaved with local events: repetition and replica clauses
+        let n_local = args.by_tier(120_000u64, 3_000_000u64);
+        let deep = !args.quick();
+        let rep = par_cases(args.threads, args.seed ^ 0xE5, n_local, args.budget(60, 600), move |_i, s, r| conv_local(s, r, deep));
+        total.count("local_programs", rep.evaluations);
+        total.merge(rep);
         // ---- concurrent delivery: few cases at a time, every case runs 3-4 threads of its own
         let n_conc = args.by_tier(48u64, 1_500u64);
         let conc_steps = args.by_tier(250usize, 400usize);
@@ -937,15 +1226,20 @@ fn main() {
 
     let meta = Meta {
         property: "C17",
-        rule: "conv-exhaustive: every multiset of <=N (quick 4, thorough 5) updates over 2 members x incarnation{0,1,2} x timestamp{1,2} x {Healthy,Degraded,Failed}, each delivered in every permutation x every batching (+ full re-delivery) to a fresh real LWWMembershipState and compared with the canonical delivery; conv-random: 3-10 updates over 2-4 members (incl. Unknown health), sampled permutations/batchings/duplications through merge and through GossipMembershipManager::handle_gossip(Sync); monotone: random programs of merges and local events (suspicions may name incarnations nobody announced; through the manager also add_peer of members already learned through gossip, and gossip rounds that expire pending suspicions - 1 ms suspicion timeout in half of those cases) with per-call checks; in half of the manager programs the receiving node is itself one of the observed members, so that updates about the node itself arrive too (its own earlier, higher incarnations gossiped back after a restart, suspicions of itself which it refutes with its own counter, Alive / ping acks / Syncs naming it) and its record of itself is monitored like any other member's; concurrent: one manager handles gossip on 2-3 threads (a pacing thread with mostly 16-480-state Sync batches, the others with Alive announcements of growing incarnations, Syncs with a growing sender clock, small Syncs, suspicions, ping acks) while every delivering thread after each call and a pure observer thread all the time read the Lamport time and the recorded incarnations of 1-3 tracked members - a value one thread reads is never below the value the same thread read before (nothing else is judged there; a concurrent case is non-trivial if at least one handler call began while another thread was inside a handler); hlc: random programs of now / receive (wall before, equal to, after the clock's; arbitrary logical counters) / clock jumps on the real HybridLogicalClock, every issued timestamp compared with the previous one. A case is distinct by the hash of its update multiset / trace and non-trivial if at least two different updates concern the same member (so order can matter).",
+        rule: "conv-exhaustive: every multiset of <=N (quick 4, thorough 5) updates over 2 members x incarnation{0,1,2} x timestamp{1,2} x {Healthy,Degraded,Failed}, each delivered in every permutation x every batching (+ full re-delivery) to a fresh real LWWMembershipState and compared with the canonical delivery; conv-random: 3-10 updates over 2-4 members (incl. Unknown health), sampled permutations/batchings/duplications through merge and through GossipMembershipManager::handle_gossip(Sync); monotone: random programs of merges and local events (suspicions may name incarnations nobody announced; through the manager also add_peer of members already learned through gossip, and gossip rounds that expire pending suspicions - 1 ms suspicion timeout in half of those cases) with per-call checks; in half of the manager programs the receiving node is itself one of the observed members, so that updates about the node itself arrive too (its own earlier, higher incarnations gossiped back after a restart, suspicions of itself which it refutes with its own counter, Alive / ping acks / Syncs naming it) and its record of itself is monitored like any other member's; concurrent: one manager handles gossip on 2-3 threads (a pacing thread with mostly 16-480-state Sync batches, the others with Alive announcements of growing incarnations, Syncs with a growing sender clock, small Syncs, suspicions, ping acks) while every delivering thread after each call and a pure observer thread all the time read the Lamport time and the recorded incarnations of 1-3 tracked members - a value one thread reads is never below the value the same thread read before (nothing else is judged there; a concurrent case is non-trivial if at least one handler call began while another thread was inside a handler); conv-local: delivery interleaved with local events - one replica X (LWW state, or in a third of the cases a manager) runs 4-13 (thorough 4-31) steps of merged batches of 1-4 reports in arbitrary order (timestamps 1..4 / 1..12 / 1..40 per case, so the newest report of a batch is first, last or in the middle and is below, at or far above the receiver's clock; manager Syncs carry a sender clock drawn independently of their timestamps, a third of them sent by an observed member), local suspect / fail / refute / mark_healthy (manager: Suspect, Alive, PingAck, add_peer, suspicion expiry by a gossip round with a 1 ms timeout) and repetition steps; the pool of updates X has received = every report delivered to it + every record it held after one of its own steps (what it would gossip); (repetition clause) re-delivering a random part of the pool to X in random order and grouping leaves X's (health, incarnation) view unchanged, (replica clause) a fresh replica Y (LWW state or manager) without local events that is delivered the whole pool in random order / grouping / repetition ends with X's view; a conv-local case is non-trivial if at least one local event changed a record of X; hlc: random programs of now / receive (wall before, equal to, after the clock's; arbitrary logical counters) / clock jumps on the real HybridLogicalClock, every issued timestamp compared with the previous one. A case is distinct by the hash of its update multiset / trace and non-trivial if at least two different updates concern the same member (so order can matter).",
         assumptions: vec![
             "views are compared on (health, incarnation) per member, as the statement says; timestamps and wall-clock stamps are not compared".into(),
             "manager convergence uses a sender that is not an observed member, because handle_sync additionally marks the *sender* healthy with a local timestamp (a local event, not a membership update); the monotonicity programs do send half of their Syncs from observed members (often reporting on themselves), since nothing may move backwards across any call".into(),
+            "conv-local: a local suspect/fail/refute/mark_healthy on replica X produces a membership update that X gossips as its record of that member; 'the set of updates X has received' is therefore the reports delivered to X plus the records X held after each of its own steps, and a replica Y 'has received the same set' when it is delivered exactly that pool; Y has no local events of its own; re-deliveries to a manager come from a sender that is not an observed member (a Sync from a member is itself a local 'sender is alive' event)".into(),
             "update_local is only called for a member's own non-decreasing incarnation (how the manager uses it)".into(),
             "a node that refutes a suspicion of itself announces an incarnation: the highest incarnation 'announced' by the receiving node is taken from the Alive messages it really hands to its transport".into(),
             "the concurrent part goes beyond the quantifier's delivery histories (it adds thread schedules, which handle_gossip(&self) on a Sync manager permits); it therefore judges nothing but 'never decrease' on successive reads of one thread, each read being one accessor call under the manager's own lock, and involves no clock; its schedule is not reproducible (replay repeats the workload up to 50 times)".into(),
         ],
-        floors: if args.replay.is_some() { vec![] } else { vec![("exhaustive_multisets", 5_000), ("random_multisets", 500), ("monotone_programs", 500), ("deliveries", 100_000), ("hlc_timestamps_checked", 50_000), ("hlc_same_wall_steps", 5_000), ("monotone_syncs_sent_by_an_observed_member", 300), ("monotone_syncs_in_which_the_sender_reports_itself_unhealthy", 60), ("monotone_suspicions_of_the_receiving_node", 100), ("monotone_suspicions_of_the_receiving_node_whose_view_of_itself_is_ahead_of_its_counter", 30), ("concurrent_cases", 8), ("concurrent_reads_checked", 20_000), ("concurrent_handler_calls_begun_while_another_thread_was_inside_a_handler", 500), ("concurrent_clock_advances_seen_by_the_observing_thread", 20)] },
+        floors: if args.replay.is_some() {
+            vec![]
+        } else if only_local {
+            vec![("local_programs", 2_000), ("local_events_applied", 2_000), ("local_batches_whose_newest_report_is_not_the_first", 1_000), ("local_redeliveries_checked_after_a_local_event", 1_000), ("local_replica_comparisons", 3_000)]
+        } else { vec![("exhaustive_multisets", 5_000), ("random_multisets", 500), ("monotone_programs", 500), ("deliveries", 100_000), ("hlc_timestamps_checked", 50_000), ("hlc_same_wall_steps", 5_000), ("monotone_syncs_sent_by_an_observed_member", 300), ("monotone_syncs_in_which_the_sender_reports_itself_unhealthy", 60), ("monotone_suspicions_of_the_receiving_node", 100), ("monotone_suspicions_of_the_receiving_node_whose_view_of_itself_is_ahead_of_its_counter", 30), ("local_programs", 2_000), ("local_events_applied", 2_000), ("local_batches_whose_newest_report_is_not_the_first", 1_000), ("local_redeliveries_checked_after_a_local_event", 1_000), ("local_replica_comparisons", 3_000), ("concurrent_cases", 8), ("concurrent_reads_checked", 20_000), ("concurrent_handler_calls_begun_while_another_thread_was_inside_a_handler", 500), ("concurrent_clock_advances_seen_by_the_observing_thread", 20)] },
         exhaustive: false,
     };
     write_result(&args, &meta, &total, started);
